@@ -299,7 +299,8 @@ class Model:
         # only live transports' partial packets (entries left behind by dead
         # transports are C11's business and cannot influence live ones)
         live = {w.eio_sid(t) for t in w.slot}
-        nbin = sum(1 for k in w.sio._binary_packet if k in live)
+        from ..introspect import server_partial_packets
+        nbin = sum(1 for k in server_partial_packets(w.sio) if k in live)
         return (conn, pend, nbin, repr(snap['pending']))
 
     def probe(self, w):
@@ -378,7 +379,8 @@ class Model:
             self._bad(w, 'zero-attachments', f'{what}: not dispatched '
                       '(parked waiting for an attachment that was never '
                       'announced)')
-            w.sio._binary_packet.pop(w.eio_sid(w.slot[s]), None)
+            from ..introspect import server_partial_packets
+            server_partial_packets(w.sio).pop(w.eio_sid(w.slot[s]), None)
             return
         self._expect_dispatch(w, s, ns, name, 3, [1], 'z', what)
 
